@@ -1,8 +1,11 @@
 """C04 — task-level failures are contained to their own future."""
 from ..ech import H
 
-LEVEL = "other"
+LEVEL = "model_checking"
+ENGINE = "E-CH+E-TS"
 EXPLANATION = (
+    "E-TS slice: the real _SafeQueue._on_queue_feeder_error (feeder thread) races with the real add_call_item_to_queue "
+    "(manager thread): bounded model checking over all interleavings, counterexamples replayed on the real methods. "
     "Bounded symbolic execution (CrossHair/z3) of the real Queue._feed, _SafeQueue._on_queue_feeder_error, "
     "_process_worker (run in-thread against a fake call/result queue), _ExceptionWithTraceback/_rebuild_exc and "
     "Future._invoke_callbacks; the failure kind of every item/task/callback and the surrounding bookkeeping state "
@@ -10,16 +13,22 @@ EXPLANATION = (
 ASSUMPTIONS = [
     "pickling outcome of an item is a symbolic flag {ok, PicklingError in dumps, struct.error in send_bytes}; real pickle is not executed",
     "traceback formatting is stubbed (formatting is not the subject); the clock and memory probe of the worker are stubbed (no leak)",
-    "interleaving of the feeder error path with the manager is covered only as atomic steps",
+    "interleaving of the feeder error path with dispatch is model-checked for 2 work ids and one failing item; with completion/shutdown only as atomic steps",
 ]
 M = "lokyverif.harness.c04_contain"
 PE = "loky.process_executor:"
+
+
+def SL(name, builder, K, timeout_s=900, params=None):
+    return ("lokyverif.ets.units_exec", "slice_unit", dict(prop="C04", name=name, builder=builder, K=K,
+                                                            timeout_s=timeout_s, params=params))
 
 
 def units(tier):
     big = tier == "thorough"
     t = 900 if big else 240
     return [
+        SL("slice.x2_feeder_error_vs_dispatch", "x2_feeder_error_vs_dispatch", 26),
         H("C04", M, "check_feed", t, ["loky.backend.queues:Queue._feed"], "<=4 items then sentinel, outcome per item in {ok, dumps raises, send raises}"),
         H("C04", M, "check_feeder_error", t, [PE + "_SafeQueue._on_queue_feeder_error"], "ids 0..2, arbitrary pending/running subsets (failed id running), both error kinds"),
         H("C04", M, "check_worker_contains_3" if big else "check_worker_contains_2", 1500 if big else 300,
